@@ -1,6 +1,8 @@
 package main
 
 import (
+	lisp "github.com/jig/lisp"
+	"fmt"
 	"github.com/jig/lisp/types"
 	. "verif.local/harness/h"
 )
@@ -41,6 +43,18 @@ func (g *c03gen) thrower(depth int) types.MalType {
 		g.hist["builtin-error"]++
 		return []types.MalType{Call("first", 5), Call("nth", V(1), 7), Call("+", 1, "a"), S("undefined-zz"), Call("/", 1, 0), Call("assert", false, t)}[g.r.Intn(6)]
 	case 4:
+		if g.r.Intn(3) == 0 {
+			// the error crosses SEVERAL builtins that call back into lisp before it is caught
+			g.hist["throw-via-nested-builtins"]++
+			inner := Call("fn", V(S("w")), Call("throw", S("w")))
+			mid := []types.MalType{
+				Call("apply", inner, Call("list", S("v"))),
+				Call("first", Call("map", inner, Call("list", S("v")))),
+				Call("swap!", Call("atom", S("v")), inner),
+				Call("eval", Call("list", inner, Call("list", Q(S("quote")), S("v")))),
+			}[g.r.Intn(4)]
+			return Call("map", Call("fn", V(S("v")), mid), Call("list", t))
+		}
 		g.hist["throw-via-map-apply"]++
 		if g.r.Bool() {
 			return Call("map", Call("fn", V(S("v")), Call("throw", S("v"))), Call("list", t))
@@ -148,8 +162,21 @@ func runC03(tier string, seed uint64, rep *Report) {
 		g.n = 0
 		p := g.try(1 + g.r.Intn(depth))
 		idx, line, _ := addProgram(rep, p, true, "random")
-		_ = idx
-		_ = line
+		// the same program as users write it: text, read without and with a module name (forms then carry positions,
+		// errors are decorated on their way out); what is caught and traced must not depend on that
+		if i%3 == 0 {
+			text := lisp.PRINT(p)
+			for _, module := range []bool{false, true} {
+				core, _, o := evalText(text, module)
+				tag := map[bool]string{false: "text-no-module", true: "text-module"}[module]
+				rep.Histogram["route:"+tag]++
+				if o.Panic != nil {
+					rep.Violate(idx, fmt.Sprintf("a Go panic escaped (%s): %v", tag, o.Panic), text)
+				} else if core != line && core != "READERR" {
+					rep.Violate(idx, fmt.Sprintf("read as text (%s) the program gives %q, built as a form %q: the thrown value or the effects differ", tag, core, line), text)
+				}
+			}
+		}
 	}
 	mergeHist(rep, g.hist)
 }
